@@ -29,7 +29,7 @@ func init() {
 			"(12) parameter names are lower-cased both where the parser stores them and where AllowOperation looks them up; " +
 			"(13) the parser strips a trailing glob and sets IsPrefix together and never for segment-wildcard rules, and the legacy policy shorthands expand to the reviewed capability sets; the candidates handed to the priority comparator carry keys computed from their own pattern (prefix candidate: isPrefix, position = length of the matched prefix; segment candidate: strings.Index of '+', permissions looked up under the same pattern); " +
 			"(14) Store.ACL fetches every attached policy name in the namespace it is attached in and builds no ACL after a failed fetch; " +
-			"(15) Core.Capabilities builds the reported ACL from the looked-up token's own namespace, entity and no_identity_policies flag and refuses disabled or dangling entities first; " +
+			"(15) Core.Capabilities builds the reported ACL from the looked-up token's own namespace, entity and no_identity_policies flag and refuses disabled or dangling entities first; the context in which the path is resolved is the request's own at every hop of both the report (Core.Capabilities → ACL.Capabilities → AllowOperation) and the enforcement (CheckToken → performPolicyChecks → AllowOperation), while only the ACL's construction uses the token-namespace context; " +
 			"(16) list filtering keeps a key only across the Allowed edge of a per-key policy check made with the request's ACL, the templated path, the router's root-path flag and the unauth flag, and writes back only filtered keys and their key_info. (4c) in the segment-wildcard matcher the tail of the request path is accepted wholesale only for a pattern ending in * , on the LAST segment of the split pattern, behind the prefix test of the two segments (every other literal segment matches by equality).",
 		NotDecided: "equality of decisions over the input space (radix lookups, glob/segment matching, valueInParameterList, parameter-list merging are value-level); pagination arithmetic; templated policies.",
 		Run:        runC03,
